@@ -105,8 +105,8 @@ def run_dp(case, stt):
         same_start(s, z, w + ": ")
         check(O.hz(s.sample_rate) == O.hz(z.sample_rate) and O.hz(s.center_freq) == O.hz(z.center_freq) and s.freq_align == z.freq_align
               and s.meta == z.meta, "{}: metadata not carried", w)
-    check(type(lin) is pb.DualPolarizationSignal and lin.pol_type == "linear", "to_linear gives {} / {}", type(lin).__name__, lin.pol_type)
-    check(type(cir) is pb.DualPolarizationSignal and cir.pol_type == "circular", "to_circular gives {} / {}", type(cir).__name__, cir.pol_type)
+    check(type(lin) is type(z) and lin.pol_type == "linear", "to_linear gives {} / {}", type(lin).__name__, lin.pol_type)
+    check(type(cir) is type(z) and cir.pol_type == "circular", "to_circular gives {} / {}", type(cir).__name__, cir.pol_type)
     check(type(st_) is pb.FullStokesSignal and type(inten) is pb.IntensitySignal, "to_stokes/to_intensity types {} {}", type(st_).__name__, type(inten).__name__)
     l, c = arr(lin), arr(cir)
 
